@@ -100,6 +100,9 @@ func mkEvent(version, shape string) (evgen.Ev, []string) {
 	case "invite":
 		member("invite", "@t:s2.org", "")
 		req["s2.org"] = true
+	case "invite-3pid": // an invite that came out of a third-party invite is signed like any other invite
+		member("invite", "@t:s2.org", `,"third_party_invite":{"display_name":"d","signed":{"mxid":"@t:s2.org","token":"tok","signatures":{"id.org":{"ed25519:0":"c2ln"}}}}`)
+		req["s2.org"] = true
 	case "invite-same-server":
 		member("invite", "@t:s1.org", "")
 	case "join-authorised":
@@ -133,7 +136,7 @@ func mkEvent(version, shape string) (evgen.Ev, []string) {
 	return e, out
 }
 
-var shapes = []string{"message", "join", "knock", "leave", "kick", "ban", "invite", "invite-same-server", "join-authorised", "invite-authorised-key-ignored", "state-other", "foreign-id"}
+var shapes = []string{"message", "join", "knock", "leave", "kick", "ban", "invite", "invite-3pid", "invite-same-server", "join-authorised", "invite-authorised-key-ignored", "state-other", "foreign-id"}
 
 // validAt is the reference key-validity rule: an expired key is valid strictly before expired_ts;
 // otherwise the lenient rule always accepts and the strict rule accepts up to min(valid_until, now + 7 days).
@@ -268,7 +271,7 @@ func main() { harness.Main("C06", "fault_enumeration", run) }
 
 func run(r *harness.Run) {
 	verifhook.Clock = func() time.Time { return vnow }
-	r.Rule("12 event shapes (message; member join/knock/leave/kick/ban/invite to another and to the same server; join and invite carrying join_authorised_via_users_server; other state; v1/v2 event ID naming another server) x 15 room versions x per-server state in {valid, absent, corrupted, made by another key under the same key ID, key unknown, expired at / after ts, valid_until before / at ts, valid_until beyond / within the 7-day cap}: every single server (5, incl. an unrelated one) in every state, and every pair of servers in every pair of states; real KeyRing over a scripted database, virtual clock placed so that the cap boundary is exact. Oracle: accept <=> every server in the reference required set has a valid-at-ts signature under the version's rule. Pseudo-ID version (own sub-harness): message / leave / invite / join x sender-key signature state x invited-key signature state x 11 mxid_mapping states (valid, missing, unsigned, signed only by another server, corrupted, wrong key, key unknown / expired / past validity, valid plus a bad or unknown other-server signature) x an unrelated server signature on the event; accept <=> the sender key (and for invites the invited key) signed the event and, for joins, the mapping carries a valid-at-ts signature of the mapped user's server. Non-trivial = distinct case with at most one failing required signer.")
+	r.Rule("13 event shapes (message; member join/knock/leave/kick/ban/invite to another and to the same server; invite carrying third_party_invite; join and invite carrying join_authorised_via_users_server; other state; v1/v2 event ID naming another server) x 15 room versions x per-server state in {valid, absent, corrupted, made by another key under the same key ID, key unknown, expired at / after ts, valid_until before / at ts, valid_until beyond / within the 7-day cap}: every single server (5, incl. an unrelated one) in every state, and every pair of servers in every pair of states; real KeyRing over a scripted database, virtual clock placed so that the cap boundary is exact. Oracle: accept <=> every server in the reference required set has a valid-at-ts signature under the version's rule. Pseudo-ID version (own sub-harness): message / leave / invite / join x sender-key signature state x invited-key signature state x 11 mxid_mapping states (valid, missing, unsigned, signed only by another server, corrupted, wrong key, key unknown / expired / past validity, valid plus a bad or unknown other-server signature) x an unrelated server signature on the event; accept <=> the sender key (and for invites the invited key) signed the event and, for joins, the mapping carries a valid-at-ts signature of the mapped user's server. Non-trivial = distinct case with at most one failing required signer.")
 	r.Assume("ed25519 trusted; reference signatures are made over the reference redaction (agreement with the library's redaction is C05)", "for org.matrix.msc4014 (pseudo IDs) the \"sender's server\" of a join is the server of the user the mxid_mapping names")
 	r.OnReplay("case", func(raw json.RawMessage) error {
 		var c c06Case
